@@ -142,3 +142,10 @@ Record wf (sw : switches) (s : state) : Prop := {
 
 (* the events a healthy runtime produces for one Start *)
 Definition healthy_start : list action := [AStart; EDialOk; ISetupOk; ERegOk; ECfgOk].
+
+(* s' is the same session as s: nothing the plugin or the runtime can see changed except the
+   bookkeeping of close notifications (pending, fired) *)
+Definition same_session (s s' : state) : Prop :=
+  ph s' = ph s /\ started s' = started s /\ sconn s' = sconn s /\ gen s' = gen s /\ cli_open s' = cli_open s /\
+  waiters s' = waiters s /\ established s' = established s /\ last_start s' = last_start s.
+
